@@ -16,6 +16,10 @@ func buildListRequest(response j5schema.RootSchema) (*client_j5pb.ListRequest, e
 	if !ok {
 		return nil, fmt.Errorf("expected object schema, got %T", response)
 	}
+	if responseObj == nil {
+		// a method without a response body arrives as a typed nil
+		return nil, fmt.Errorf("a list request needs a response with an array, the method has no response body")
+	}
 
 	var foundArray *j5schema.ArrayField
 
